@@ -984,6 +984,74 @@ func c06Keywords(w *core.W, j int) {
 	}
 }
 
+// c06KeywordCase: "keyword case does not change the result" for every keyword there is - the mnemonic of
+// every type with a presentation format (and of every class), written in lower, upper and alternating
+// case, in a one-line entry and in a parenthesised one with the class left out.
+func c06KeywordCase(w *core.W, j int) {
+	g := model.NewGen(w.Rng(j))
+	g.NoHuge, g.Plain, g.MaxOpaque = true, true, 24
+	respell := func(s string, mode int) string {
+		b := []byte(s)
+		for i, c := range b {
+			lower := mode == 0 || mode == 2 && i%2 == 0 || mode == 3 && i%2 == 1
+			switch {
+			case lower && c >= 'A' && c <= 'Z':
+				b[i] = c + 32
+			case !lower && c >= 'a' && c <= 'z':
+				b[i] = c - 32
+			}
+		}
+		return string(b)
+	}
+	for _, l := range textLayouts() {
+		r := c05Base(g, l)
+		rr, _, err := dns.UnpackRR(r.Wire(), 0)
+		if err != nil {
+			continue
+		}
+		rr.Header().Class = []uint16{1, 3, 4}[int(l.Type)%3]
+		line := rr.String()
+		f := strings.SplitN(line, "	", 5) // owner ttl class type rdata
+		if len(f) < 4 || f[3] != l.Name {
+			continue
+		}
+		rd := ""
+		if len(f) == 5 {
+			rd = f[4]
+		}
+		want, _ := packRR(rr)
+		for mode := 0; mode < 4; mode++ {
+			for shape := 0; shape < 2; shape++ {
+				text := fmt.Sprintf("%s %s %s %s %s\n", f[0], f[1], respell(f[2], mode), respell(f[3], mode), rd)
+				if shape == 1 {
+					if rr.Header().Class != 1 || rd == "" {
+						continue
+					}
+					text = fmt.Sprintf("%s %s %s ( %s )\n", f[0], f[1], respell(f[3], mode), rd)
+				}
+				w.Eval(1)
+				w.Count("keyword_case_entries", 1)
+				w.NontrivialStr(text)
+				wit := map[string]any{"zone_text": text, "type": l.Name}
+				zp := dns.NewZoneParser(strings.NewReader(text), "", "")
+				var got dns.RR
+				var ok bool
+				if w.Guard("ZoneParser", wit, func() { got, ok = zp.Next() }) {
+					continue
+				}
+				key := fmt.Sprintf("C06/keyword-case/%s/%s", l.Name, []string{"lower", "upper", "alternating", "alternating"}[mode])
+				if !ok || got == nil {
+					w.Violation(key, fmt.Sprintf("the entry %q is not read: %v", text, zp.Err()), wit)
+					continue
+				}
+				if b, _ := packRR(got); !bytes.Equal(b, want) {
+					w.Violation(key, fmt.Sprintf("the entry %q reads as another record than the same entry with the keywords in upper case", text), wit)
+				}
+			}
+		}
+	}
+}
+
 // c06Sequences: short hand-written entry sequences in which something that an entry depends on
 // changes between two entries that are spelled alike (origin, $TTL, class, owner).
 func c06Sequences(w *core.W, j int) {
@@ -1037,6 +1105,12 @@ func c06Sequences(w *core.W, j int) {
 			[]exp{{"g0.a.example.", 60}, {"g1.a.example.", 61}}},
 		seq{"ttl-boundary-values", "$ORIGIN a.example.\na 4294967295 IN A 192.0.2.1\nb IN 4294967295 A 192.0.2.1\nc 4294967295 A 192.0.2.1\nd 2147483648 A 192.0.2.1\ne 0 A 192.0.2.1\n$TTL 4294967295\nf A 192.0.2.1\n$TTL 4294967294\ng A 192.0.2.1\nh 1193046h28m15s A 192.0.2.1\n",
 			[]exp{{"a.a.example.", 4294967295}, {"b.a.example.", 4294967295}, {"c.a.example.", 4294967295}, {"d.a.example.", 2147483648}, {"e.a.example.", 0}, {"f.a.example.", 4294967295}, {"g.a.example.", 4294967294}, {"h.a.example.", 4294967295}}},
+		// one file spliced in more than once: under two origins, directly after itself, and again after a
+		// file that includes it too (the second inclusion starts when the first has long finished)
+		seq{"same-file-included-twice", "$ORIGIN a.example.\n$INCLUDE ttl.db x.example.\n$INCLUDE ttl.db y.example.\n$INCLUDE ttl.db\n",
+			[]exp{{"one.x.example.", 600}, {"two.x.example.", 600}, {"one.y.example.", 600}, {"two.y.example.", 600}, {"one.a.example.", 600}, {"two.a.example.", 600}}},
+		seq{"same-file-included-again-after-a-file-that-includes-it", "$ORIGIN a.example.\n$TTL 50\n$INCLUDE outer.db\n$INCLUDE ttl.db z.example.\n$INCLUDE outer.db w.example.\n",
+			[]exp{{"one.a.example.", 600}, {"two.a.example.", 50}, {"o.a.example.", 50}, {"one.z.example.", 600}, {"two.z.example.", 50}, {"one.w.example.", 600}, {"two.w.example.", 50}, {"o.w.example.", 50}}},
 		seq{"$TTL-wins-over-explicit", "$ORIGIN a.example.\n$TTL 300\none 600 A 192.0.2.1\ntwo A 192.0.2.2\n",
 			[]exp{{"one.a.example.", 600}, {"two.a.example.", 300}}},
 	)
@@ -1108,6 +1182,7 @@ func c06Sequences(w *core.W, j int) {
 	files := fstest.MapFS{
 		"zones/seq.db":  &fstest.MapFile{Data: []byte("www 77 IN A 192.0.2.7\n@ 77 IN A 192.0.2.7\na.b 77 IN A 192.0.2.7\n* 77 IN A 192.0.2.7\nWWW 77 IN A 192.0.2.7\n")},
 		"zones/ttl.db":  &fstest.MapFile{Data: []byte("one 600 A 192.0.2.1\ntwo A 192.0.2.2\n")},
+		"zones/outer.db": &fstest.MapFile{Data: []byte("$INCLUDE ttl.db\no A 192.0.2.9\n")},
 		"zones/gen0.db": &fstest.MapFile{Data: []byte("g0 60 A 192.0.2.1\n")},
 		"zones/gen1.db": &fstest.MapFile{Data: []byte("g1 61 A 192.0.2.1\n")},
 	}
@@ -1161,6 +1236,7 @@ func init() {
 		section{"sequences", tiered(1, 1), c06Sequences},
 		section{"quoting", tiered(1, 4), c06Quoting},
 		section{"keywords", tiered(1, 1), c06Keywords},
+		section{"keyword-case", tiered(1, 3), c06KeywordCase},
 		section{"zones", tiered(40000, 1500000), c06Zone},
 		concurrentSection("C06"),
 	)
